@@ -52,6 +52,10 @@ def run(args) -> int:
                       f'Definition C11_{ia}_{ib} := C11.C11_general FL_{ia} FL_{ib} ok_{ib} neg_{ib} sub_{ia}_{ib} frm_{ia}_{ib}.\n')
             good_pairs.append((a, b))
         if not s_ok:
+            ob.append(f'Lemma nsub_{ia}_{ib} : sub_sem (fl_S FL_{ia}) (fl_S FL_{ib}) = false. Proof. vm_compute. reflexivity. Qed.')
+        if not f_ok:
+            ob.append(f'Lemma nfrm_{ia}_{ib} : frame_sub FL_{ia} FL_{ib} = false. Proof. vm_compute. reflexivity. Qed.')
+        if not s_ok:
             chk.violation(f'extension:{a}>{b}:semantics',
                           f'{a} is declared to extend {b} but its semantics is not a sub-semantics of {b} '
                           '(values / designation / tables / generalisers differ on its value set)',
